@@ -68,6 +68,7 @@ OPS = {
     "include-latin1": ("```{include} uni.md\n:encoding: latin-1\n```\n", {}),
     "include-utf8": ("```{include} uni.md\n```\n\n```{include} uni.md\n:literal:\n```\n", {}),
     "deprecated-ext": ("![a](b.png){width=10px}\n", {"myst_enable_extensions": ["attrs_image"]}),
+    "unknown-lexer": ("```nosuchlang\nx = 1\n```\n\n```{code-block} nosuchlang2\ny\n```\n", {}),
     "tokenizer-soup": ("```{note}\n:class: \"a\\\n  b\"\n:name: |\n  x\n\nbody\n```\n", {}),
 }
 
@@ -175,6 +176,7 @@ SX_DOCS = {
     "include": "# I\n\n```{include} inc.txt\n:heading-offset: 1\n```\n",
     "rst-include-opt": "# R\n\n```{eval-rst}\n.. include:: inc.txt\n   :heading-offset: 1\n```\n",
     "links": "# L\n\n[](other.md) [t](other.md#sub) [](#lbl) <project:other.md>\n",
+    "links-sub": "# L\n\n[](other.md) [t](other.md#sub) <project:other.md>\n",
     "fm-subdelims": "---\nmyst:\n  sub_delimiters: ['[', ']']\n---\n# S\n\n[[k]] and {{k}}\n",
     "fm-dmath": "---\nmyst:\n  dmath_allow_labels: false\n  dmath_allow_digits: false\n  dmath_double_inline: true\n---\n# M\n\n$$a$$ (l) 1$x$2 b $$c$$ d\n",
     "plain-math": "# M\n\n$$a$$ (l) 1$x$2 b $$c$$ d\n\n{{k}} [[k]]\n",
@@ -188,10 +190,11 @@ def sphinx_history(root, hist):
         shutil.rmtree(root)
     d = SphinxDriver(root, conf="myst_enable_extensions=['colon_fence','substitution','dollarmath']\nmyst_substitutions={'k':'GLOBAL'}\nmyst_heading_anchors=1\n"
                                 "suppress_warnings=['image.not_readable','toc.not_included']\n",
-                     files={"inc.txt": "## Inc head\n\nincluded para\n", "other.md": "(lbl)=\n# Other\n\n## Sub\n"})
+                     files={"inc.txt": "## Inc head\n\nincluded para\n", "other.md": "(lbl)=\n# Other\n\n## Sub\n", "sub/other.md": "# Other in sub\n\n## Sub\n"})
     outs = []
     for i, name in enumerate(hist):
-        doc, w = d.read(f"d{i}", SX_DOCS[name])
+        # ('...-sub' documents live in a sub-directory: the same relative link text means another file there)
+        doc, w = d.read(("sub/" if name.endswith("-sub") else "") + f"d{i}", SX_DOCS[name])
         pf = re.sub(r"d\d+\.md", "dN.md", doc.pformat()).replace(str(d.src), "<src>")
         outs.append(pf + "\n" + re.sub(r"d\d+\.md", "dN.md", w).replace(str(d.src), "<src>") + "\nCFG " + repr(sorted(d.app.env.myst_config.enable_extensions)))
     return outs
